@@ -80,6 +80,8 @@ type c11ReqCtx struct {
 	User string
 }
 
+type c11Celsius float64
+
 var c11RC = &c11ReqCtx{Context: context.Background(), User: "u1"}
 
 var pkNames = []string{"string", "bool", "int", "int8", "int16", "int32", "int64", "float32", "float64", "interface{}", "*decimal.Big", "time.Time", "[]string", "[]int", "[]interface{}", "map[string]interface{}", "map[string]int", "*c11ReqCtx", "[]int8"}
@@ -162,6 +164,16 @@ func init() {
 		argv{kind: "arr", goTyped: true, expr: "rc.strs", elems: []argv{{kind: "str", str: "p"}, {kind: "str", str: "q"}}},
 		argv{kind: "null", expr: "np"}, // a typed nil pointer read by name
 		argv{kind: "ctxlike", expr: "rcx"},
+		// Go numbers of the kinds that do NOT become formula numbers by themselves (C16 lists int, int32, int64,
+		// float64): as arguments they are numbers all the same - converted with the range check, never wrapped
+		argv{kind: "num", num: "300", expr: "g.n16", goTyped: true},
+		argv{kind: "num", num: "200", expr: "g.u8", goTyped: true},
+		argv{kind: "num", num: "9223372036854775808", expr: "g.u64", goTyped: true},
+		argv{kind: "num", num: "-1", expr: "g.i8", goTyped: true},
+		argv{kind: "num", num: "1500", expr: "g.dur", goTyped: true},
+		argv{kind: "num", num: "2.5", expr: "g.cel", goTyped: true},
+		argv{kind: "num", num: "1e30", expr: "g.celbig", goTyped: true},
+		argv{kind: "num", num: "70000", expr: "g.u32", goTyped: true},
 		argv{kind: "num", num: "1.9", expr: "true ? 1.9 : 2"}, // a conditional is one argument (the comma after it separates arguments)
 		argv{kind: "str", str: "x", expr: "false ? 1 : 'x'"},
 		argv{kind: "num", num: "-9223372036854775808", expr: "(-9223372036854775808)"},
@@ -233,11 +245,17 @@ func row(pk int, a argv) (int, interface{}) {
 		}
 		return vF, nil
 	}
+	if a.goTyped && a.kind == "num" && (pk == pkBool || pk == pkDec && false) {
+		return vU, nil
+	}
 	if a.goTyped && (pk == pkIface || pk == pkSliceIface) {
 		return vU, nil // whether a Go-typed slice is handed on as it is or element by element is not fixed
 	}
 	switch pk {
 	case pkString:
+		if a.goTyped && a.kind == "num" {
+			return vD, anyValue{} // formatted by its own rules (a Duration prints as 1.5µs)
+		}
 		if a.goTyped && len(a.elems) > 0 && a.elems[0].kind == "num" {
 			var parts []string
 			for _, e := range a.elems {
@@ -636,7 +654,8 @@ func judgeCall(c CallCase) *eng.Fail {
 	invocations = invocations[:0]
 	data := map[string]interface{}{"host": makeHost(c.Fixed, c.Tail, c.Ctx, c.Ret), "mp": c11Map, "tm": c11Time,
 		"rc": map[string]interface{}{"nilsl": []string(nil), "nilany": []interface{}(nil), "ints": []int{65, 66}, "strs": []string{"p", "q"}, "twice": []map[string]interface{}{c11Map, c11Map},
-			"wide": []int{300, 1}, "i32s": []int32{72, 105}, "f64s": []float64{1.5, -2.5}, "anys": []interface{}{4, 7.5, int64(9007199254740993)}}, "np": (*int)(nil), "rcx": c11RC, "tml": c11TimeLocal}
+			"wide": []int{300, 1}, "i32s": []int32{72, 105}, "f64s": []float64{1.5, -2.5}, "anys": []interface{}{4, 7.5, int64(9007199254740993)}}, "np": (*int)(nil), "rcx": c11RC, "tml": c11TimeLocal,
+		"g": map[string]interface{}{"n16": int16(300), "u8": uint8(200), "u64": uint64(1) << 63, "i8": int8(-1), "dur": time.Duration(1500), "cel": c11Celsius(2.5), "celbig": c11Celsius(1e30), "u32": uint32(70000)}}
 	r := formula.NewRunner()
 	r.SetThis(data)
 	o := safeResolve(r, c11Ctx, p.Expression)
